@@ -129,8 +129,34 @@ def valid_content(evo, rel, data: bytes):
 
 
 # ------------------------------------------------------------- operations
+def _odd_case_pdf(path, op):
+    """'.PDF' / '.Pdf': today this means one file per figure (the test is
+    case sensitive); a case-insensitive test (one multi-page file) would be
+    just as right - both layouts are accepted as expected outputs"""
+    base, ext = os.path.splitext(path)
+    return ext != ".pdf" and ext.lower() == ".pdf" and not op.get("plot_split")
+
+
 def expected_outputs(op):
     """([exact relpaths in the order the code writes them], [glob patterns])"""
+    exact, globs = _expected_outputs(op)
+    for key in ("path", ):
+        pass
+    paths = []
+    if op["kind"] == "lib_export":
+        paths.append(op["path"])
+    elif "opts" in op and op["opts"].get("save_plot"):
+        paths.append(op["opts"]["save_plot"])
+    for path in paths:
+        if _odd_case_pdf(path, op):
+            base, ext = os.path.splitext(path)
+            exact = [e for e in exact if not (e == path or e.startswith(
+                base + "_"))]
+            globs = globs + [path, f"{base}_*{ext}"]
+    return exact, globs
+
+
+def _expected_outputs(op):
     k = op["kind"]
     if k in ("lib_tum", "lib_kitti", "lib_res", "lib_table", "lib_serialize",
              "cli_generate"):
@@ -322,7 +348,7 @@ class C17(Check):
                       data=rng.randrange(2))
         elif kind == "lib_export":
             op.update(path=sub + "plot" + rng.choice([".pdf", ".png", ".svg",
-                                                      ".png"]),
+                                                      ".png", ".PDF", ".Png"]),
                       plot_split=rng.random() < 0.3)
         elif kind == "lib_serialize":
             op.update(path=sub + "plots.pkl")
@@ -332,7 +358,8 @@ class C17(Check):
             if r < 0.6:
                 o["save_results"] = sub + rng.choice(["res.zip", "b.zip"])
             if r > 0.45 and rng.random() < 0.5:
-                o["save_plot"] = sub + "plot" + rng.choice([".pdf", ".png"])
+                o["save_plot"] = sub + "plot" + rng.choice([".pdf", ".png",
+                                                            ".PDF", ".pdf"])
             if rng.random() < 0.15:
                 o["serialize_plot"] = sub + "plots.pkl"
             if not o:
@@ -429,8 +456,12 @@ class C17(Check):
         exact, globs = expected_outputs(op)
         cands = list(exact)
         for g in globs:
-            cands += [g.replace("*", n) for n in ("trajectories", "xyz",
-                                                  "raw", "box_plot")]
+            if "*" in g:
+                cands += [g.replace("*", n) for n in ("trajectories", "xyz",
+                                                      "raw", "map", "a", "b",
+                                                      "box_plot")]
+            else:
+                cands.append(g)
         pre = {}
         for c in cands:
             p = 0.45 if exists is None else (1.0 if exists else 0.0)
